@@ -87,11 +87,13 @@ func init() {
 // ---------------------------------------------------------------- word space (indexable, no materialisation)
 
 type section struct {
-	tuple     []int
-	sameShape bool // only words whose letters all have the same shape (used for recursion x recursion in quick)
-	count     int64 // size of the product (before the sameShape filter)
-	batch     int64
+	tuple  []int
+	filter string // "" | "rec-frames-0-1024" | "same-shape-rec-pair" (quick tier only, see sectionsFor)
+	count  int64  // size of the product (before the filter)
+	batch  int64
 }
+
+func edgeFrame(l letter) bool { return l.Kind == KRec0 || l.Kind == KRec1024 }
 
 func (s section) recs() int {
 	n := 0
@@ -109,8 +111,8 @@ func (s section) String() string {
 		n += className[c] + "."
 	}
 	n = strings.TrimSuffix(n, ".")
-	if s.sameShape {
-		n += "(same shape)"
+	if s.filter != "" {
+		n += "(" + s.filter + ")"
 	}
 	return n
 }
@@ -123,11 +125,16 @@ func (s section) word(idx int64) (w []letter, ok bool) {
 		w[i] = c[idx%int64(len(c))]
 		idx /= int64(len(c))
 	}
-	if s.sameShape {
-		for _, l := range w[1:] {
-			if l.Shape != w[0].Shape {
+	switch s.filter {
+	case "rec-frames-0-1024": // recursion letters only with the smallest and the largest frame
+		for _, l := range w {
+			if isRec(l.Kind) && !edgeFrame(l) {
 				return w, false
 			}
+		}
+	case "same-shape-rec-pair": // two recursions through the same shape (same function objects); any frame, then an edge frame
+		if w[0].Shape != w[1].Shape || !edgeFrame(w[1]) {
+			return w, false
 		}
 	}
 	return w, true
@@ -170,7 +177,7 @@ func sectionsFor(tier string) (secs []section, excludedByCap int64) {
 		for _, t := range allTuples(n) {
 			k, r0, nn, r := countOf(t, clK), countOf(t, clR0), countOf(t, clN), countOf(t, clR)
 			rec := r0 + r
-			include, same := false, false
+			include, filter := false, ""
 			if tier == "thorough" {
 				switch n {
 				case 1, 2:
@@ -187,10 +194,15 @@ func sectionsFor(tier string) (secs []section, excludedByCap int64) {
 				case 1:
 					include = true
 				case 2:
-					// all pairs without recursion; a recursion letter with a core letter on either side;
-					// recursion x recursion on the same shape (second overflow on the grown stack)
+					// all pairs without recursion; a recursion letter (smallest / largest frame) with a core
+					// letter on either side; recursion x recursion through the same shape (second overflow
+					// on the already grown stack)
 					include = rec == 0 || (rec == 1 && k == 1) || rec == 2
-					same = rec == 2
+					if rec == 1 {
+						filter = "rec-frames-0-1024"
+					} else if rec == 2 {
+						filter = "same-shape-rec-pair"
+					}
 				case 3:
 					include = (nn == 0 && r == 0) || (rec == 0 && nn == 1)
 				}
@@ -202,7 +214,7 @@ func sectionsFor(tier string) (secs []section, excludedByCap int64) {
 				excludedByCap += size(t)
 				continue
 			}
-			s := section{tuple: t, sameShape: same, count: size(t), batch: 1024}
+			s := section{tuple: t, filter: filter, count: size(t), batch: 1024}
 			if rec > 0 {
 				s.batch = 24
 			}
@@ -364,7 +376,20 @@ type batchResult struct {
 
 func failing(l letter) bool { return l.Kind != KOk && l.Kind != KDeepOk && l.Kind != KDeepHost }
 
-func runBatch(sp *space, sec int, lo, hi int64) batchResult {
+func hasDeepHost(w []letter) bool {
+	for _, l := range w {
+		if l.Kind == KDeepHost {
+			return true
+		}
+	}
+	return false
+}
+
+// runBatch runs the words [lo,hi) of a section. Every word belongs to exactly one pass: words with a
+// deephost letter (a forced garbage collection below 1500 live frames) run in the "clobber" pass, whose
+// children have GODEBUG=clobberfree=1 so that a use of an outgrown, freed native stack becomes visible;
+// all other words run in the "plain" pass (clobbering every freed 84 MB stack doubles the cost of a recursion).
+func runBatch(sp *space, sec int, lo, hi int64, pass string) batchResult {
 	st := &childStats{hist: map[string]int64{}, states: map[string]bool{}}
 	var viols []viol
 	rts := make([]*engineRT, len(engines))
@@ -373,7 +398,7 @@ func runBatch(sp *space, sec int, lo, hi int64) batchResult {
 	}
 	for idx := lo; idx < hi; idx++ {
 		word, ok := sp.secs[sec].word(idx)
-		if !ok {
+		if !ok || hasDeepHost(word) != (pass == "clobber") {
 			continue
 		}
 		st.words++
@@ -454,13 +479,13 @@ func main() {
 				var sec int
 				var idx int64
 				fmt.Sscanf(singles[i], "%d:%d", &sec, &idx)
-				b, _ := json.Marshal(runBatch(sp, sec, idx, idx+1))
+				b, _ := json.Marshal(runBatch(sp, sec, idx, idx+1, os.Getenv("C06_PASS")))
 				return string(b)
 			})
 		}
 		fw.ChildLoop(func(i int) string {
 			c := sp.cases[i]
-			b, _ := json.Marshal(runBatch(sp, c.sec, c.lo, c.hi))
+			b, _ := json.Marshal(runBatch(sp, c.sec, c.lo, c.hi, os.Getenv("C06_PASS")))
 			return string(b)
 		})
 		return
@@ -471,7 +496,6 @@ func main() {
 	samples := fw.NewSampler(16)
 	var words, steps, nontriv int64
 	states := map[string]bool{}
-	var crashed []int
 	var allViols []viol
 	absorb := func(res string) {
 		var br batchResult
@@ -490,21 +514,32 @@ func main() {
 		allViols = append(allViols, br.Viols...)
 	}
 	workers := runtime.NumCPU()
-	childEnv := []string{"GODEBUG=clobberfree=1"} // freed objects (outgrown native stacks) are overwritten: use-after-free becomes visible
-	done := fw.Supervise(fw.SupOpts{N: nBatches, Workers: workers, CaseTimeout: 180 * time.Second, Mode: "batch", Env: childEnv,
-		Stop: func() bool { return run.Expired() }},
-		func(i int, res string, crash *fw.Crash) {
-			if crash != nil {
-				crashed = append(crashed, i)
-				return
-			}
-			absorb(res)
-		})
-	if done < nBatches {
-		run.Capped("budget")
-	}
-	// crash localisation: re-run the words of crashed batches one per case.
-	if len(crashed) > 0 {
+	secWords := make([]int64, len(sp.secs))
+	for _, pass := range []string{"plain", "clobber"} {
+		// GOMAXPROCS=2: a child executes its words sequentially; more Ps only add GC threads that compete with the other children.
+		env := []string{"C06_PASS=" + pass, "GOMAXPROCS=2"}
+		if pass == "clobber" {
+			env = append(env, "GODEBUG=clobberfree=1") // freed objects (outgrown native stacks) are overwritten
+		}
+		var crashed []int
+		done := fw.Supervise(fw.SupOpts{N: nBatches, Workers: workers, CaseTimeout: 300 * time.Second, Mode: "batch", Env: env,
+			Stop: func() bool { return run.Expired() }},
+			func(i int, res string, crash *fw.Crash) {
+				if crash != nil {
+					crashed = append(crashed, i)
+					return
+				}
+				before := words
+				absorb(res)
+				secWords[sp.cases[i].sec] += words - before
+			})
+		if done < nBatches {
+			run.Capped("budget")
+		}
+		if len(crashed) == 0 {
+			continue
+		}
+		// crash localisation: re-run the words of crashed batches one per case.
 		sort.Ints(crashed)
 		var singles []string
 		type sw struct {
@@ -513,30 +548,31 @@ func main() {
 		}
 		var list []sw
 		for n, b := range crashed {
-			if n >= 8 {
-				run.Note("%d batches crashed; only the first 8 are localised word by word", len(crashed))
+			if n >= 4 {
+				run.Note("pass %s: %d batches crashed; only the first 4 are localised word by word", pass, len(crashed))
 				break
 			}
 			c := sp.cases[b]
 			for j := c.lo; j < c.hi; j++ {
-				if _, ok := sp.secs[c.sec].word(j); ok {
+				if w, ok := sp.secs[c.sec].word(j); ok && hasDeepHost(w) == (pass == "clobber") && len(list) < 256 {
 					singles = append(singles, fmt.Sprintf("%d:%d", c.sec, j))
 					list = append(list, sw{c.sec, j})
 				}
 			}
 		}
 		fw.Supervise(fw.SupOpts{N: len(list), Workers: workers, CaseTimeout: 120 * time.Second, Mode: "single",
-			Env: append([]string{"C06_SINGLES=" + strings.Join(singles, ",")}, childEnv...)},
+			Env: append([]string{"C06_SINGLES=" + strings.Join(singles, ",")}, env...)},
 			func(i int, res string, crash *fw.Crash) {
 				if crash != nil {
 					w, _ := sp.secs[list[i].sec].word(list[i].idx)
-					run.Violation("process-"+crash.Kind+":"+wordString(w),
-						fmt.Sprintf("word [%s]: the process did not survive (%s): %s", wordString(w), crash.Kind, fw.FirstLines(crash.Stderr, 3)),
-						map[string]any{"word": wordString(w)})
+					allViols = append(allViols, viol{Sig: "process-" + crash.Kind + ":" + wordString(w), Word: wordString(w),
+						What: fmt.Sprintf("word [%s]: the process did not survive (%s): %s", wordString(w), crash.Kind, fw.FirstLines(crash.Stderr, 3))})
 					outcomes.Inc("process-" + crash.Kind)
 					return
 				}
+				before := words
 				absorb(res)
+				secWords[list[i].sec] += words - before
 			})
 	}
 	// report the shortest failing histories first (fw keeps a bounded number of replay files)
@@ -556,8 +592,8 @@ func main() {
 		}
 	}
 	secs := map[string]any{}
-	for _, s := range sp.secs {
-		secs[s.String()] = s.count
+	for i, s := range sp.secs {
+		secs[s.String()] = map[string]int64{"product": s.count, "words_run": secWords[i]}
 	}
 	var coreNames []string
 	for _, l := range append(append([]letter{}, classes[clK]...), classes[clR0]...) {
@@ -572,14 +608,15 @@ func main() {
 		Samples: samples.List(), Exhaustive: true, Outcomes: outcomes.Map(),
 		Bounds: map[string]any{"full_alphabet": len(fullAlphabet), "core_alphabet": coreNames, "shapes": NShapes, "kinds": NKinds,
 			"class_sizes": map[string]int{"K": len(classes[clK]), "r0": len(classes[clR0]), "N": len(classes[clN]), "R": len(classes[clR])},
-			"sections_product_size": secs, "max_recursion_letters_per_word": maxRecPerWord, "engines": engines},
+			"sections": secs, "max_recursion_letters_per_word": maxRecPerWord, "engines": engines},
 		Extra: map[string]any{"words_excluded_by_recursion_cap": sp.excludedByCap, "words_run": words,
 			"distinct_model_states": len(states), "batches": nBatches},
 	}, []string{
 		"error texts are not compared; kinds are recognised with errors.Is / errors.As (message only for non-error panic values)",
 		"a call that itself traps on an already closed instance is modelled as returning the trap (what both engines do); the statement only fixes the exit error for calls that would otherwise succeed",
 		"host functions re-raise a nested failure with panic(err); a level that swallows it returns a class code to the guest",
-		"runtimes are created per batch of 256 words (compilation is the dominant cost); instances A and B are fresh for every word",
+		"runtimes are created per batch of words (24 with recursion, 1024 otherwise; compilation is the dominant cost); instances A and B are fresh for every word",
+		"words with a deephost letter run with GODEBUG=clobberfree=1 (use of a freed outgrown stack becomes a crash); all other words run without it",
 	})
 }
 
